@@ -794,3 +794,198 @@ pub fn generate(rng: &mut Rng, np: usize, flags: &Flags, depth: usize) -> Node {
     let mut sc = Scope::default();
     g.gen(rng, depth, &mut sc)
 }
+
+// ---------------------------------------------------------------------------------------------
+// Directed generators (shape-restricted scripts for C18 and C13)
+// ---------------------------------------------------------------------------------------------
+
+fn lit_call(peer: usize, fname: String, args: Vec<Arg>, out: Out) -> Node {
+    Node::Call { peer: PeerRef::Lit(peer), service: "svc".into(), fname, args, out }
+}
+fn var(name: &str) -> Arg {
+    Arg::Var { name: name.to_string(), lens: vec![] }
+}
+
+/// C18: one failing instruction F of a drawn kind inside `(xor F (call P probeE [:error:.$.error_code :error:.$.message ..iters]))`,
+/// placed in a drawn context. Variants (uncaught / succeeding left) are derived from the AST by `c18_variant`.
+pub fn gen_c18(rng: &mut Rng, np: usize) -> Node {
+    let mut n = 0usize;
+    let mut id = || {
+        n += 1;
+        n
+    };
+    let in_fold = rng.chance(30);
+    let it = "it90".to_string();
+    let iters: Vec<Arg> = if in_fold { vec![var(&it)] } else { vec![] };
+    // prelude values F may use
+    let obj_id = id();
+    let objv = format!("v{obj_id}");
+    let prelude = lit_call(rng.below(np), format!("obj{obj_id}"), iters.clone(), Out::Scalar(objv.clone()));
+    let k = id();
+    let kind = rng.below(8);
+    let fpeer = rng.below(np);
+    let f: Node = match kind {
+        0 => Node::Fail { code: 1 + rng.below(900) as i64, msg: format!("boom{k}") },
+        1 | 2 => lit_call(fpeer, format!("fail{k}"), iters.clone(), if rng.chance(50) { Out::Scalar(format!("v{k}")) } else { Out::None }),
+        3 => {
+            if rng.chance(50) {
+                Node::Match { l: Arg::Str("a".into()), r: Arg::Str("b".into()), body: Box::new(Node::Null) }
+            } else {
+                Node::Mismatch { l: var(&objv), r: var(&objv), body: Box::new(Node::Null) }
+            }
+        }
+        4 => {
+            let mut a = vec![Arg::Var { name: objv.clone(), lens: vec![Lens::Field("nosuch".into())] }];
+            a.extend(iters.clone());
+            lit_call(fpeer, format!("f{k}"), a, Out::None)
+        }
+        5 => Node::Fold {
+            iterable: var(&objv),
+            it: format!("it{k}"),
+            body: Box::new(Node::seq(Node::Null, Node::Next(format!("it{k}")))),
+            last: None,
+        },
+        6 => {
+            // index into an object / field of an array
+            let mut a = vec![Arg::Var { name: objv.clone(), lens: vec![Lens::Field("c".into()), Lens::Field("x".into())] }];
+            a.extend(iters.clone());
+            lit_call(fpeer, format!("f{k}"), a, Out::None)
+        }
+        _ => Node::Ap { src: Arg::Var { name: objv.clone(), lens: vec![Lens::Idx(3)] }, dst: format!("av{k}") },
+    };
+    let pk = id();
+    let mut pargs = vec![Arg::ErrCode, Arg::ErrMsg];
+    pargs.extend(iters.clone());
+    let probe = lit_call(rng.below(np), format!("probeE{pk}"), pargs, Out::None);
+    let x = Node::xor(f, probe);
+    let core = Node::seq(prelude, x);
+    // context
+    let mut other = |rng: &mut Rng| {
+        let i = id();
+        lit_call(rng.below(np), format!("f{i}"), iters.clone(), if rng.chance(50) { Out::Scalar(format!("v{i}")) } else { Out::None })
+    };
+    let ctx = match rng.below(7) {
+        0 => core,
+        1 => Node::seq(other(rng), core),
+        2 => Node::seq(core, other(rng)),
+        3 => Node::par(core, other(rng)),
+        4 => Node::par(other(rng), core),
+        5 => Node::xor(Node::Fail { code: 9, msg: "outer".into() }, core),
+        _ => Node::New { var: "$tmp".into(), body: Box::new(core) },
+    };
+    if in_fold {
+        let a = id();
+        let arrv = format!("v{a}");
+        Node::seq(
+            lit_call(rng.below(np), format!("arr{a}"), vec![], Out::Scalar(arrv.clone())),
+            Node::Fold { iterable: var(&arrv), it: it.clone(), body: Box::new(Node::seq(ctx, Node::Next(it))), last: None },
+        )
+    } else {
+        ctx
+    }
+}
+
+/// kind "U": the failing instruction left uncaught; kind "S": the left branch replaced by a call that succeeds
+pub fn c18_variant(ast: &Node, kind: &str, np: usize) -> Node {
+    let mut out = ast.clone();
+    out.walk_mut(&mut |node| {
+        let replace = match node {
+            Node::Xor(l, r) => match (&**l, &**r) {
+                (left, Node::Call { fname, .. }) if fname.starts_with("probeE") => Some(((*left).clone(), (**r).clone())),
+                _ => None,
+            },
+            _ => None,
+        };
+        if let Some((left, probe)) = replace {
+            if kind == "U" {
+                *node = left;
+            } else {
+                let args = match &probe {
+                    Node::Call { args, .. } => args.iter().filter(|a| matches!(a, Arg::Var { .. })).cloned().collect(),
+                    _ => vec![],
+                };
+                let ok = lit_call(np - 1, "okS1".into(), args, Out::None);
+                *node = Node::xor(ok, probe);
+            }
+        }
+    });
+    out
+}
+
+/// C13: an append phase into `$s` from several peers (calls and aps, possibly under par), then a local canon,
+/// a probe of the canon, and a fold over `$s` whose body is a probe call on the folding peer; optionally recursive.
+pub fn gen_c13(rng: &mut Rng, np: usize) -> Node {
+    let mut n = 0usize;
+    let mut id = || {
+        n += 1;
+        n
+    };
+    fn appends(rng: &mut Rng, np: usize, depth: usize, id: &mut dyn FnMut() -> usize) -> Node {
+        if depth == 0 || rng.chance(30) {
+            let i = id();
+            return if rng.chance(25) { Node::Ap { src: Arg::Str(format!("l{i}")), dst: "$s".into() } } else { lit_call(rng.below(np), format!("f{i}"), vec![], Out::Stream("$s".into())) };
+        }
+        let l = appends(rng, np, depth - 1, id);
+        let r = appends(rng, np, depth - 1, id);
+        if rng.chance(50) {
+            Node::par(l, r)
+        } else {
+            Node::seq(l, r)
+        }
+    }
+    let folder = rng.below(np);
+    let app_depth = 1 + rng.below(3);
+    let app = appends(rng, np, app_depth, &mut id);
+    let recursive = rng.chance(35);
+    let body_probe = lit_call(folder, "probeF1".into(), vec![var("it1")], Out::None);
+    let body = if recursive {
+        let guard = Node::xor(
+            Node::Match { l: Arg::Var { name: "it1".into(), lens: vec![Lens::Field("n".into())] }, r: Arg::Num(0), body: Box::new(Node::Null) },
+            lit_call(rng.below(np), "rdec1".into(), vec![var("it1")], Out::Stream("$s".into())),
+        );
+        Node::seq(body_probe, guard)
+    } else {
+        body_probe
+    };
+    let comb_par = rng.chance(60);
+    let inner = if comb_par { Node::par(body, Node::Next("it1".into())) } else { Node::seq(body, Node::Next("it1".into())) };
+    let fold = Node::Fold { iterable: var("$s"), it: "it1".into(), body: Box::new(inner), last: Some(Box::new(Node::Null)) };
+    let canon = Node::Canon { peer: PeerRef::Lit(folder), src: "$s".into(), dst: "#c1".into() };
+    let probe_c = lit_call(folder, "probeC1".into(), vec![Arg::Canon { name: "#c1".into(), lens: vec![] }], Out::None);
+    let tail = Node::seq(canon, Node::seq(probe_c, fold));
+    // `par` appends complete as soon as one side does, so the tail may start before all appends are known: intended
+    Node::seq(app, tail)
+}
+
+/// C18, uncaught variant in a context where the failure surfaces as the run's result:
+/// `(seq prelude F)` (inside the same fold if the script has one), without par / outer xor around it.
+pub fn c18_uncaught(ast: &Node) -> Option<Node> {
+    fn find_core(n: &Node) -> Option<Node> {
+        match n {
+            Node::Seq(pre, x) => {
+                if let Node::Xor(f, p) = &**x {
+                    if matches!(&**p, Node::Call { fname, .. } if fname.starts_with("probeE")) {
+                        return Some(Node::seq((**pre).clone(), (**f).clone()));
+                    }
+                }
+                find_core(pre).or_else(|| find_core(x))
+            }
+            Node::Par(l, r) | Node::Xor(l, r) => find_core(l).or_else(|| find_core(r)),
+            Node::Match { body, .. } | Node::Mismatch { body, .. } | Node::New { body, .. } => find_core(body),
+            Node::Fold { body, .. } => find_core(body),
+            _ => None,
+        }
+    }
+    let core = find_core(ast)?;
+    if let Node::Seq(arr, fold) = ast {
+        if let (Node::Call { fname, .. }, Node::Fold { iterable, it, last, .. }) = (&**arr, &**fold) {
+            if fname.starts_with("arr") {
+                return Some(Node::seq(
+                    (**arr).clone(),
+                    Node::Fold { iterable: iterable.clone(), it: it.clone(), body: Box::new(Node::seq(core, Node::Next(it.clone()))), last: last.clone() },
+                ));
+            }
+        }
+    }
+    Some(core)
+}
